@@ -307,3 +307,29 @@ theorem xy_small : xyJToMn 1 = (0, 0) ∧ xyJToMn 2 = (1, 0) ∧ xyJToMn 3 = (0,
   exact ⟨a, b, c⟩
 
 end Model.C11
+
+namespace Model.C11
+
+/-- the Fringe group: `n + |m| = 2 (⌈√j⌉ - 1)` -/
+theorem fringe_group (j : Int) (hj : 1 ≤ j) :
+    (fringeToNm j).1 + |(fringeToNm j).2| = 2 * (pyCeilSqrt j - 1) := by
+  have key : ∀ k r : Int, 0 ≤ r → r ≤ 2 * k →
+      (k + r / 2) + |(2 * k - (k + r / 2)) * (1 - 2 * (r % 2))| = 2 * k := by
+    intro k r h0 h1
+    rcases Int.emod_two_eq_zero_or_one r with h | h
+    · rw [h]
+      have : (2 * k - (k + r / 2)) * (1 - 2 * 0) = k - r / 2 := by ring
+      rw [this, abs_of_nonneg (by omega)]; omega
+    · rw [h]
+      have : (2 * k - (k + r / 2)) * (1 - 2 * 1) = -(k - r / 2) := by ring
+      rw [this, abs_neg, abs_of_nonneg (by omega)]; omega
+  obtain ⟨k, hk, hlo, hhi⟩ := ceilSqrt_spec j.toNat (by omega)
+  have e : ((j.toNat : Nat) : Int) = j := Int.toNat_of_nonneg (by omega)
+  have hlo' : (k : Int) * k < j := by rw [← e]; exact_mod_cast hlo
+  have hhi' : j ≤ ((k : Int) + 1) * (k + 1) := by rw [← e]; exact_mod_cast hhi
+  have hc : pyCeilSqrt j - 1 = k := by unfold pyCeilSqrt; rw [hk]; push_cast; ring
+  unfold fringeToNm
+  simp only [hc]
+  exact key k (j - k * k - 1) (by omega) (by nlinarith)
+
+end Model.C11
